@@ -122,6 +122,26 @@ class Field:
         return v.as_long()
 
 
+class _Derived:
+    kind, var, value, name = "derived", None, None, "<derived>"
+
+    def __init__(self, bits, fn):
+        self.bits, self.width, self.fn = list(bits), len(bits), fn
+
+    def val(self, model):
+        v = 0
+        for b in self.bits:
+            v = (v << 1) | (1 if z3.is_true(ev_term_(model, b.true())) else 0)
+        return v
+
+    def constraint(self):
+        return z3.BoolVal(True)
+
+
+def ev_term_(model, t):
+    return model.eval(t, model_completion=True)
+
+
 class Frame:
     """A Mode S frame built from named fields, MSB first. spec items:
        ("name", width) symbolic bit-vector field; ("name", width, value) constant; ("name", width, "int") Int field"""
@@ -152,6 +172,31 @@ class Frame:
         else:
             self.casev = [z3.Bool("%scase%d" % (prefix, i)) for i in range(n)]
         self.msg = mkstr([HexChar(self.bits[4 * i:4 * i + 4], self.casev[i]) for i in range(n)])
+
+    @classmethod
+    def custom(cls, parts, prefix="", case="upper"):
+        """parts: list of Field objects or ("derived", [Bit...], fn(model)->int) for bits computed from other fields"""
+        self = cls.__new__(cls)
+        self.fields, self.order = {}, []
+        for p in parts:
+            if isinstance(p, Field):
+                self.fields[p.name[len(prefix):] if prefix and p.name.startswith(prefix) else p.name] = p
+                self.order.append(p)
+            else:
+                self.order.append(_Derived(p[1], p[2]))
+        self.nbits = sum(f.width for f in self.order)
+        assert self.nbits % 4 == 0, self.nbits
+        self.bits = [b for f in self.order for b in f.bits]
+        self.case, self.prefix = case, prefix
+        n = self.nbits // 4
+        if case == "upper":
+            self.casev = [True] * n
+        elif case == "lower":
+            self.casev = [False] * n
+        else:
+            self.casev = [z3.Bool("%scase%d" % (prefix, i)) for i in range(n)]
+        self.msg = mkstr([HexChar(self.bits[4 * i:4 * i + 4], self.casev[i]) for i in range(n)])
+        return self
 
     def __getitem__(self, name):
         return self.fields[name]
@@ -285,12 +330,13 @@ def jsonable(v):
 # --------------------------------------------------------------------------- work item context
 
 class Violation:
-    def __init__(self, item, label, inputs, detail, finding=None):
+    def __init__(self, item, label, inputs, detail, finding=None, raw=None):
         self.item, self.label, self.inputs, self.detail, self.finding = item, label, inputs, detail, finding
+        self.raw = raw
 
     def asdict(self):
         return {"item": self.item, "label": self.label, "inputs": jsonable(self.inputs), "detail": self.detail,
-                "finding": self.finding}
+                "finding": self.finding, "raw": self.raw}
 
 
 class Item:
@@ -315,6 +361,7 @@ class Item:
         self.functions = set()
         self.notes = []
         self.cvc5_checked = 0
+        self.pins = (params or {}).get("__pins__")
         self._t0 = time.time()
 
     # ---- setup
@@ -332,6 +379,18 @@ class Item:
                 self.inputs[str(t)] = t
             else:
                 raise TypeError(t)
+        if self.pins:
+            # replay mode: pin every declared input to the recorded counterexample value
+            for k, v in self.inputs.items():
+                if k in self.pins and k not in getattr(self, "_pinned", set()):
+                    self.__dict__.setdefault("_pinned", set()).add(k)
+                    pv = self.pins[k]
+                    if z3.is_bool(v):
+                        self.assumptions.append(v == bool(pv))
+                    elif z3.is_real(v):
+                        self.assumptions.append(v == z3.RealVal(str(pv)))
+                    else:
+                        self.assumptions.append(v == int(pv))
 
     def assume(self, *conds):
         self.assumptions += list(conds)
@@ -470,7 +529,7 @@ class Item:
             self.known_hits.setdefault(finding["id"], {"what": finding["what"], "example": jsonable(inputs),
                                                        "detail": detail})
         else:
-            self.violations.append(Violation(self.name, label, inputs, detail))
+            self.violations.append(Violation(self.name, label, inputs, detail, raw=self.model_inputs(model)))
 
     def sat_witness(self, label, conds):
         """reachability twin: the conjunction must be satisfiable (guards against vacuity)"""
